@@ -68,7 +68,9 @@ func (m *C03) OnStep(w *ops.World, st *ops.Step) {
 		if ok && st.Amount.IsPositive() && st.Amount.LTE(row.WithdrawableAmount) {
 			m.S.Eval("withdraw-accepted")
 			m.S.Case("withdraw-accepted|" + assetKind(w, st.Asset.ID))
-			if !st.Ack {
+			if !st.Ack && strings.Contains(st.Err, "failed to obtain coinbase address") {
+				m.S.Violate("withdraw-refused", "evm-proposer-unresolvable", m.Hist, st.I, "withdraw refused because the EVM cannot resolve the block proposer: %s", trunc(st.Err, 200))
+			} else if !st.Ack {
 				m.S.Violate("withdraw-refused", assetKind(w, st.Asset.ID), m.Hist, st.I, "withdraw %s within withdrawable %s refused: %s %v", st.Amount, row.WithdrawableAmount, st.Err, st.P)
 			}
 		}
@@ -88,7 +90,7 @@ func (m *C03) OnStep(w *ops.World, st *ops.Step) {
 	}
 
 	// vanished records
-	type credit struct{ actual, amount sdkmath.Int }
+	type credit struct{ actual, amount Z }
 	perStaker := map[string]credit{} // staker/asset
 	vanished := 0
 	for k, r := range pre.Undel {
@@ -147,11 +149,8 @@ func (m *C03) OnStep(w *ops.World, st *ops.Step) {
 		m.S.Case(fmt.Sprintf("release|%s|%s|%s|%s", sh.opState, hp, assetKind(w, r.AssetID), sh.origin))
 		key := r.StakerID + "/" + r.AssetID
 		c := perStaker[key]
-		if c.actual.IsNil() {
-			c.actual, c.amount = sdkmath.ZeroInt(), sdkmath.ZeroInt()
-		}
-		c.actual = c.actual.Add(r.ActualCompletedAmount)
-		c.amount = c.amount.Add(r.Amount)
+		c.actual = c.actual.Add(ZI(r.ActualCompletedAmount))
+		c.amount = c.amount.Add(ZI(r.Amount))
 		perStaker[key] = c
 	}
 	if st.Kind == "end_block" {
@@ -164,12 +163,9 @@ func (m *C03) OnStep(w *ops.World, st *ops.Step) {
 			if !ok {
 				continue
 			}
-			c, has := perStaker[k]
-			if !has {
-				c = credit{sdkmath.ZeroInt(), sdkmath.ZeroInt()}
-			}
+			c := perStaker[k]
 			m.S.Eval("credit")
-			if !row.WithdrawableAmount.Sub(p.WithdrawableAmount).Equal(c.actual) {
+			if !ZI(row.WithdrawableAmount).Sub(ZI(p.WithdrawableAmount)).Equal(c.actual) {
 				m.S.Violate("credit-mismatch", assetKind(w, assetOfKey(k, 1)), m.Hist, st.I, "staker row %s withdrawable %s -> %s, released records pay %s", k, p.WithdrawableAmount, row.WithdrawableAmount, c.actual)
 			}
 		}
@@ -184,7 +180,7 @@ func (m *C03) OnStep(w *ops.World, st *ops.Step) {
 				for acc, bal := range post.Bal {
 					if accBytesEq(acc, bz) {
 						m.S.Eval("credit-native")
-						if !bal.Sub(pre.Bal[acc]).Equal(c.actual) {
+						if !ZI(bal).Sub(ZI(pre.Bal[acc])).Equal(c.actual) {
 							m.S.Violate("credit-mismatch", "native", m.Hist, st.I, "native staker %s balance %s -> %s, released %s", acc, pre.Bal[acc], bal, c.actual)
 						}
 					}
@@ -257,6 +253,10 @@ func (m *C03) acceptUndelegate(w *ops.World, st *ops.Step) {
 	if !st.Ack && (strings.Contains(st.Err, "overflow") || strings.Contains(st.Panic, "overflow")) {
 		// checked-arithmetic overflow for astronomically large positions: its own signature
 		m.S.Violate("undelegate-refused", "arith-overflow", m.Hist, st.I, "undelegation within position refused by arithmetic overflow: %s %v", trunc(st.Err, 120), st.P)
+	} else if !st.Ack && strings.Contains(st.Err, "failed to obtain coinbase address") {
+		// every EVM transaction of the block fails because the block proposer's consensus address no longer
+		// resolves to an operator (root cause: C07 finding "reverse lookup deleted at once")
+		m.S.Violate("undelegate-refused", "evm-proposer-unresolvable", m.Hist, st.I, "undelegation within position refused because the EVM cannot resolve the block proposer: %s %v", trunc(st.Err, 200), st.P)
 	} else if !st.Ack {
 		m.S.Violate("undelegate-refused", state, m.Hist, st.I, "undelegation within position refused (operator state %s): %s %s %v", state, st.Err, st.Panic, st.P)
 	}
@@ -303,15 +303,11 @@ func (m *C03) checkCreation(w *ops.World, st *ops.Step, newKeys []string) {
 
 // structure: index bijection and aggregates.
 func (m *C03) structure(w *ops.World, st *ops.Step, l *sim.Ledger) {
-	stakerPend := map[string]sdkmath.Int{}
-	operPend := map[string]sdkmath.Int{}
-	delWait := map[string]sdkmath.Int{}
-	add := func(mm map[string]sdkmath.Int, k string, v sdkmath.Int) {
-		if cur, ok := mm[k]; ok {
-			mm[k] = cur.Add(v)
-		} else {
-			mm[k] = v
-		}
+	stakerPend := map[string]Z{}
+	operPend := map[string]Z{}
+	delWait := map[string]Z{}
+	add := func(mm map[string]Z, k string, v sdkmath.Int) {
+		mm[k] = mm[k].Add(ZI(v))
 	}
 	// index entries pointing at each record (format-agnostic: the statement only needs every record to be
 	// reachable through exactly one entry of each index, under its staker/asset resp. completion height)
@@ -356,20 +352,20 @@ func (m *C03) structure(w *ops.World, st *ops.Step, l *sim.Ledger) {
 	}
 	for k, row := range l.Staker {
 		m.S.Eval("aggregate")
-		if !row.PendingUndelegationAmount.Equal(get(stakerPend, k)) {
-			m.S.Violate("staker-pending-aggregate", assetKind(w, assetOfKey(k, 1)), m.Hist, st.I, "staker %s pending=%s Σrecords=%s after %s %v", k, row.PendingUndelegationAmount, get(stakerPend, k), st.Kind, st.P)
+		if !ZI(row.PendingUndelegationAmount).Equal(stakerPend[k]) {
+			m.S.Violate("staker-pending-aggregate", assetKind(w, assetOfKey(k, 1)), m.Hist, st.I, "staker %s pending=%s Σrecords=%s after %s %v", k, row.PendingUndelegationAmount, stakerPend[k], st.Kind, st.P)
 		}
 	}
 	for k, row := range l.Operator {
 		m.S.Eval("aggregate")
-		if !row.PendingUndelegationAmount.Equal(get(operPend, k)) {
-			m.S.Violate("operator-pending-aggregate", assetKind(w, assetOfKey(k, 1)), m.Hist, st.I, "operator %s pending=%s Σrecords=%s after %s %v", k, row.PendingUndelegationAmount, get(operPend, k), st.Kind, st.P)
+		if !ZI(row.PendingUndelegationAmount).Equal(operPend[k]) {
+			m.S.Violate("operator-pending-aggregate", assetKind(w, assetOfKey(k, 1)), m.Hist, st.I, "operator %s pending=%s Σrecords=%s after %s %v", k, row.PendingUndelegationAmount, operPend[k], st.Kind, st.P)
 		}
 	}
 	for k, row := range l.Delegation {
 		m.S.Eval("aggregate")
-		if !row.WaitUndelegationAmount.Equal(get(delWait, k)) {
-			m.S.Violate("delegation-wait-aggregate", "", m.Hist, st.I, "delegation %s wait=%s Σrecords=%s after %s %v", k, row.WaitUndelegationAmount, get(delWait, k), st.Kind, st.P)
+		if !ZI(row.WaitUndelegationAmount).Equal(delWait[k]) {
+			m.S.Violate("delegation-wait-aggregate", "", m.Hist, st.I, "delegation %s wait=%s Σrecords=%s after %s %v", k, row.WaitUndelegationAmount, delWait[k], st.Kind, st.P)
 		}
 	}
 	for k, v := range stakerPend {
